@@ -40,7 +40,8 @@ META = {
              " Round 13: write_handled_close - the caller handles the reported failure of one chunk, stores the others and closes; accepted chunks must be there, the refused one absent, complete or detectably invalid."
              " http_faults: after a reported failure the same accessor object is asked again without a fault (the stored bytes or an I/O error)."
              " Round 17: store_file_no_overwrite (a second, non-overwriting store of info / meta.json)."
-             " Round 18: chunk coordinates as tuple / list / NumPy array."),
+             " Round 18: chunk coordinates as tuple / list / NumPy array."
+             " Round 21: scale keys holding braces or a percent sign (they are interpolated into error messages)."),
     "trusted_base": ["vlib/faultfs.py: crash model = process killed between "
                      "(or inside) application-level write calls, earlier "
                      "closed files intact; self-checked on every scenario by "
@@ -133,15 +134,24 @@ def large_scenarios(draw):
     return sc
 
 
+# scale keys are free-form names: most are plain, some hold the characters
+# that string formatting gives a meaning to (they end up in error messages)
+KEY_STYLES = ("s%d", "s%d", "s%d", "{%d}um", "lvl_{%d}", "{}%d", "%%s%d")
+
+
+def skey(sc, i):
+    return KEY_STYLES[sc["seed"] % len(KEY_STYLES)] % i
+
+
 def build_info(sc):
     sharding = ds.sharding_dict(sc["bits"][0], sc["bits"][1], sc["bits"][2],
                                 sc["shard_enc"], sc["shard_enc"]) \
         if sc["kind"] == "sharded" else None
-    scales = [ds.make_scale("s0", sc["size"], sc["chunk"], sc["encoding"],
+    scales = [ds.make_scale(skey(sc, 0), sc["size"], sc["chunk"], sc["encoding"],
                             block=[2, 2, 2], sharding=sharding)]
     if sc["kind"] == "sharded":
         s1 = json.loads(json.dumps(scales[0]))
-        s1["key"] = "s1"
+        s1["key"] = skey(sc, 1)
         scales.append(s1)
     return ds.make_info(sc["dtype"], sc["channels"], scales)
 
@@ -208,13 +218,13 @@ class Scenario:
                 stored = []
         for i, cc in enumerate(stored):
             arr = content(sc, cc, i)
-            pio.write_chunk(arr, "s0", cc)
-            self.model[("s0", cc)] = arr
+            pio.write_chunk(arr, skey(self.sc, 0), cc)
+            self.model[(skey(self.sc, 0), cc)] = arr
         ds.close_accessor(pio)
         if sc["kind"] == "file":
             pio.accessor.store_file("meta.json", b'{"a": 1}',
                                     mime_type="application/json")
-        free = [cc for cc in self.grid if ("s0", cc) not in self.model]
+        free = [cc for cc in self.grid if (skey(self.sc, 0), cc) not in self.model]
         self.new_cc = free[sc["target"] % len(free)] if free else None
         self.new_arr = content(sc, self.new_cc, 99) if free else None
 
@@ -248,8 +258,8 @@ class Scenario:
         if op == "store_chunk":
             if self.new_cc is None:
                 return None
-            pio.write_chunk(self.new_arr.copy(), "s0", self.rep(self.new_cc))
-            return ("stored", [("s0", self.new_cc, self.new_arr)])
+            pio.write_chunk(self.new_arr.copy(), skey(self.sc, 0), self.rep(self.new_cc))
+            return ("stored", [(skey(self.sc, 0), self.new_cc, self.new_arr)])
         if op == "store_file_no_overwrite":
             # a second run of a command that writes the info (or another
             # file) without permission to overwrite: must raise
@@ -309,13 +319,13 @@ class Scenario:
             self.failed = []
             for i, cc in enumerate(order):
                 arr = content(sc, cc, 1000 + i)
-                new.append(("s1", cc, arr))
+                new.append((skey(self.sc, 1), cc, arr))
                 try:
-                    pio.write_chunk(arr, "s1", self.rep(cc))
+                    pio.write_chunk(arr, skey(self.sc, 1), self.rep(cc))
                 except (DataAccessError_(), OSError):
-                    self.failed.append(("s1", cc, arr))
+                    self.failed.append((skey(self.sc, 1), cc, arr))
                     continue
-                self.accepted.append(("s1", cc, arr))
+                self.accepted.append((skey(self.sc, 1), cc, arr))
             pio.accessor.close()
             return ("stored", new)
         if op == "write_close":
@@ -326,9 +336,9 @@ class Scenario:
             self.accepted = []
             for i, cc in enumerate(order):
                 arr = content(sc, cc, 1000 + i)
-                pio.write_chunk(arr, "s1", self.rep(cc))
-                new.append(("s1", cc, arr))
-                self.accepted.append(("s1", cc, arr))
+                pio.write_chunk(arr, skey(self.sc, 1), self.rep(cc))
+                new.append((skey(self.sc, 1), cc, arr))
+                self.accepted.append((skey(self.sc, 1), cc, arr))
             pio.accessor.close()
             return ("stored", new)
         raise HarnessError("unknown op " + op)
